@@ -452,6 +452,10 @@ FUNCS = ["f", "g", "h", "min", "max", "len", "typeof", "str::from", "math::abs"]
 
 def rand_lit(r):
     k = r.random()
+    if k < 0.04:     # digit strings beyond the integer range are floats; hexadecimal integers; leading zeros
+        txt, val = r.choice([("9223372036854775808", vF(fbits(2.0 ** 63))), ("18446744073709551616", vF(fbits(2.0 ** 64))), ("99999999999999999999", vF(fbits(1e20))),
+                             ("0x10", vI(16)), ("0xfF", vI(255)), ("0x7fffffffffffffff", vI(I64_MAX)), ("007", vI(7)), ("9223372036854775807", vI(I64_MAX))])
+        return ("lit", txt, val)
     if k < 0.45:
         i = r.choice([0, 1, 2, 3, 7, 10, 42, 255, 2 ** 31, I64_MAX]) if r.random() < 0.8 else r.randint(0, 10 ** 6)
         return ("lit", str(i), vI(i))
